@@ -37,23 +37,23 @@ example : judgeEv [.qnew 2 16 0 true, .deq 16 (.msg ⟨1, 1, 8⟩)] ≠ [] := by
 example : judgeEv [.qnew 2 16 0 true, .enq ⟨1, 1, 12⟩ .ok, .deq 8 (.msg ⟨1, 1, 12⟩)] ≠ [] := by decide
 -- overflow policy: full without flags must fail; DROP_OLDEST must accept; BLOCK_WRITER must block; room must accept
 example : judgeEv [.qnew 1 16 0 true, .enq ⟨1, 1, 8⟩ .ok, .enq ⟨1, 2, 8⟩ .ok] ≠ [] := by decide
-example : judgeEv [.qnew 1 16 1 true, .enq ⟨1, 1, 8⟩ .ok, .enq ⟨1, 2, 8⟩ .fail] ≠ [] := by decide
-example : judgeEv [.qnew 1 16 2 true, .enq ⟨1, 1, 8⟩ .ok, .enq ⟨1, 2, 8⟩ .fail] ≠ [] := by decide
-example : judgeEv [.qnew 2 16 2 true, .enq ⟨1, 1, 8⟩ .blocked] ≠ [] := by decide
+example : judgeEv [.qnew 1 16 flagDropOldest true, .enq ⟨1, 1, 8⟩ .ok, .enq ⟨1, 2, 8⟩ .fail] ≠ [] := by decide
+example : judgeEv [.qnew 1 16 flagBlockWriter true, .enq ⟨1, 1, 8⟩ .ok, .enq ⟨1, 2, 8⟩ .fail] ≠ [] := by decide
+example : judgeEv [.qnew 2 16 flagBlockWriter true, .enq ⟨1, 1, 8⟩ .blocked] ≠ [] := by decide
 example : judgeEv [.qnew 2 16 0 true, .enq ⟨1, 1, 8⟩ .fail] ≠ [] := by decide
 -- DROP_OLDEST dropped the newest: the old message must be gone
-example : judgeEv [.qnew 1 16 1 true, .enq ⟨1, 1, 8⟩ .ok, .enq ⟨1, 2, 8⟩ .ok, .deq 16 (.msg ⟨1, 1, 8⟩)] ≠ [] := by decide
+example : judgeEv [.qnew 1 16 flagDropOldest true, .enq ⟨1, 1, 8⟩ .ok, .enq ⟨1, 2, 8⟩ .ok, .deq 16 (.msg ⟨1, 1, 8⟩)] ≠ [] := by decide
 -- bad sizes accepted
 example : judgeEv [.qnew 2 16 0 true, .enq ⟨1, 1, 0⟩ .ok] ≠ [] := by decide
 example : judgeEv [.qnew 2 16 0 true, .enq ⟨1, 1, 17⟩ .ok] ≠ [] := by decide
 -- a blocked writer is not woken by the dequeue that made room / the wrong writer is woken
-example : judgeEv [.qnew 1 16 2 true, .enq ⟨1, 1, 8⟩ .ok, .enq ⟨2, 1, 8⟩ .blocked, .deq 16 (.msg ⟨1, 1, 8⟩), .qstat 0 1 1 0 0 0 true false] ≠ [] := by decide
-example : judgeEv [.qnew 1 16 2 true, .enq ⟨1, 1, 8⟩ .ok, .enq ⟨2, 1, 8⟩ .blocked, .deq 16 (.msg ⟨1, 1, 8⟩), .unblocked 3 1] ≠ [] := by decide
-example : judgeEv [.qnew 1 16 2 true, .unblocked 2 1] ≠ [] := by decide
+example : judgeEv [.qnew 1 16 flagBlockWriter true, .enq ⟨1, 1, 8⟩ .ok, .enq ⟨2, 1, 8⟩ .blocked, .deq 16 (.msg ⟨1, 1, 8⟩), .qstat 0 1 1 0 0 0 true false] ≠ [] := by decide
+example : judgeEv [.qnew 1 16 flagBlockWriter true, .enq ⟨1, 1, 8⟩ .ok, .enq ⟨2, 1, 8⟩ .blocked, .deq 16 (.msg ⟨1, 1, 8⟩), .unblocked 3 1] ≠ [] := by decide
+example : judgeEv [.qnew 1 16 flagBlockWriter true, .unblocked 2 1] ≠ [] := by decide
 -- statistics: index out of the buffer, wrong size, wrong counters, queue created from capacity 0
 example : judgeEv [.qnew 2 16 0 true, .qstat 0 0 0 0 2 0 true false] ≠ [] := by decide
 example : judgeEv [.qnew 2 16 0 true, .enq ⟨1, 1, 8⟩ .ok, .qstat 0 1 0 0 1 0 true false] ≠ [] := by decide
-example : judgeEv [.qnew 2 16 1 true, .enq ⟨1, 1, 8⟩ .ok, .qstat 1 1 1 0 1 0 false false] ≠ [] := by decide
+example : judgeEv [.qnew 2 16 flagDropOldest true, .enq ⟨1, 1, 8⟩ .ok, .qstat 1 1 1 0 1 0 false false] ≠ [] := by decide
 example : judgeEv [.qnew 0 16 0 true] ≠ [] := by decide
 example : judgeEv [.qnew 2 16 0 true, .enq ⟨1, 1, 8⟩ .crash] ≠ [] := by decide
 
@@ -88,13 +88,15 @@ example : judgeEv [.hbrace 60 false] ≠ [] := by decide
 
 /-! extension round -/
 -- a clear that leaves the blocked writer asleep (the next event is not `unblocked`)
-example : judgeEv [.qnew 1 8 2 true, .enq ⟨1, 1, 8⟩ .ok, .enq ⟨2, 7, 8⟩ .blocked, .qclear, .qstat 0 1 0 0 0 0 true false] ≠ [] := by decide
+example : judgeEv [.qnew 1 8 flagBlockWriter true, .enq ⟨1, 1, 8⟩ .ok, .enq ⟨2, 7, 8⟩ .blocked, .qclear, .qstat 0 1 0 0 0 0 true false] ≠ [] := by decide
 -- …the accepted behaviour
-example : judgeEv [.qnew 1 8 2 true, .enq ⟨1, 1, 8⟩ .ok, .enq ⟨2, 7, 8⟩ .blocked, .qclear, .unblocked 2 7,
+example : judgeEv [.qnew 1 8 flagBlockWriter true, .enq ⟨1, 1, 8⟩ .ok, .enq ⟨2, 7, 8⟩ .blocked, .qclear, .unblocked 2 7,
                    .qstat 1 2 0 0 0 0 false true] = [] := by decide
 -- the poll back end as it was: a wake-up byte garbles the next completion; records beyond max are thrown away
 example : judgeEv [.wakeup 0, .post 1 4097 7 0, .wait 8 [(1048832, 1793)], .wait 8 []] ≠ [] := by decide
 example : judgeEv [.post 1 1 1 0, .post 2 2 2 0, .post 1 3 3 0, .wait 1 [(1, 1)], .wait 1 []] ≠ [] := by decide
+-- a timed join on a live thread that comes back false before its time is up (it stopped polling)
+example : judgeEv [.wnew 1 false, .wjoin 1 50 .rc0 1] ≠ [] := by decide
 -- the clear of call_heart_beat wiped a tick that arrived inside it
 example : judgeEv [.hbowed false] ≠ [] := by decide
 -- verdict lines of the real multi-thread runs
